@@ -2,6 +2,7 @@ import Driver.Arith
 import Driver.Model
 import Driver.Proto
 import Driver.Lin
+import Driver.Sec
 /-! Line-protocol driver: one request per input line, one canonical answer per output line
 (protocol-trace lines `p …` answer only at `p done`). -/
 open Driver
@@ -15,6 +16,7 @@ def handle (st : DSt) (line : String) : DSt × Option String :=
   match ws with
   | [] => (st, some "")
   | "arith" :: rest => (st, some ((arithLine rest).getD "bad-op"))
+  | "m" :: "sec" :: rest => let (m, r) := secLine st.m rest; ({ st with m := m }, some r)
   | "m" :: rest => let (m, r) := modelLine st.m rest; ({ st with m := m }, some r)
   | "p" :: rest => let (p, r) := protoLine st.p rest; ({ st with p := p }, r)
   | "lin" :: rest => (st, some (linLine rest))
